@@ -255,6 +255,40 @@ func genProgram(r *hk.Rand) *program {
 	return p
 }
 
+// genUploadProgram: a multipart upload with 1-3 files whose first 1-3 attempts fail under the
+// default rule (or a status condition) with a count that allows the retries.
+func genUploadProgram(r *hk.Rand) *program {
+	p := genProgram(r)
+	p.ClientOps = []rop{{Op: "interval", Interval: 1}, {Op: "count", N: hk.Pick(r, []int{2, 3, 5, -1})}}
+	p.ReqOps = nil
+	p.After = nil
+	sh := &p.Shape
+	sh.Method = hk.Pick(r, []string{"POST", "PUT", "PATCH"})
+	sh.BodyKind, sh.Body, sh.MPFiles = "multipart", "", nil
+	kinds := []string{"bytes", "path", "seekcloser", "reader", "buffer", "osfile"}
+	for i, nf := 0, r.Range(1, 3); i < nf; i++ {
+		k := hk.Pick(r, kinds)
+		if r.Chance(50) {
+			k = hk.Pick(r, kinds[:4]) // replayable kinds more often, so that all attempts happen
+		}
+		sh.MPFiles = append(sh.MPFiles, mpFile{Param: hk.Pick(r, []string{"file", "doc", "img"}), Name: hk.Pick(r, []string{"a.txt", "b.bin"}), Content: hk.Pick(r, bodies), Kind: k})
+	}
+	p.Script = nil
+	fails := r.Range(1, 3)
+	if r.Chance(30) {
+		p.ReqOps = []rop{{Op: "setcond", Cond: &condSpec{ID: 9, Kind: "errorge", Arg: 500}}}
+	}
+	for i := 0; i < fails; i++ {
+		if len(p.ReqOps) > 0 && r.Bool() {
+			p.Script = append(p.Script, outcome{Kind: "status", Status: hk.Pick(r, []int{500, 502, 503})})
+		} else {
+			p.Script = append(p.Script, outcome{Kind: "err"})
+		}
+	}
+	p.Script = append(p.Script, outcome{Kind: "status", Status: 200}, outcome{Kind: "ctxcancel"})
+	return p
+}
+
 // ---------- multipart canonical form ----------
 
 // canonMultipart: mask = (form name, file name) pairs whose parts are left out.
@@ -475,6 +509,10 @@ func runC10(r *hk.Run) {
 	n := r.Scale(1500, 30000)
 	for i := 0; i < n; i++ {
 		runProgram(r, genProgram(rng))
+	}
+	// upload slice: multipart programs that are sure to be retried, every kind of file source
+	for i, m := 0, r.Scale(200, 4000); i < m; i++ {
+		runProgram(r, genUploadProgram(rng))
 	}
 	backoffCases(r, rng)
 	rawOrigin(r, rng)
